@@ -203,12 +203,14 @@ def rule_r5(ck, prog, rule='C13.R5'):
 
 
 def run(ck, prog):
-    ck.doc('C13.R1', 'concrete log recordables own their data (no borrowing field types)', 10)
+    ck.doc('C13.R1', 'concrete log recordables own their data (no borrowing field types); API container setters view caller storage', 11)
     ck.doc('C13.R2', 'correlation: all three identity setters on every path behind a found active span; API setters sequenced left to right', 9)
     ck.doc('C13.R3', 'EmitLogRecord: enabled and null gates first; resource/scope before OnEmit; one OnEmit', 5)
     ck.doc('C13.R4', 'logs MultiRecordable and MultiLogRecordProcessor fan-out completeness', 14)
     ck.doc('C13.R5', 'argument type -> setter dispatch table (from the instantiations)', 8)
     ck.doc('C08.R7', '(shared rule) ReadWriteLogRecord::SetAttribute stores last-write-wins', 1)
+    ck.doc('C13.R6', 'ReadWriteLogRecord setters: every parameter stored on every path (explicit identity always overrides)', 10)
+    ck.doc('C13.R7', 'the simple log processor hands every record to the exporter (no path around Export)', 1)
     with ck.canary('C13.R2'):
         rule_r2_api_canary(ck, prog)
     c04.rule_r6(ck, prog, base='sdk::logs::Recordable', rule='C13.R1')
@@ -220,7 +222,59 @@ def run(ck, prog):
     rule_r4_processor(ck, prog)
     rule_r5(ck, prog)
     c08.rule_r7(ck, prog, setters=('sdk::logs::ReadWriteLogRecord::SetAttribute',))
+    n6 = c04.rule_r7(ck, prog, cls='sdk::logs::ReadWriteLogRecord', base='logs::LogRecord', rule='C13.R6')
+    n6 += c04.rule_r7(ck, prog, cls='sdk::logs::ReadWriteLogRecord', base='sdk::logs::Recordable', rule='C13.R6')
+    rule_r7_simple(ck, prog)
+    rule_r1_exposure(ck, prog)
     return {}
+
+
+def rule_r7_simple(ck, prog, rule='C13.R7', cls='sdk::logs::SimpleLogRecordProcessor', method='OnEmit'):
+    """the simple processor hands every record to its exporter: no path through OnEmit avoids Export"""
+    f = prog.function(cls + '::' + method)
+    g = Graph(prog, f, inline=None, sync_lambdas=False)
+    ex = [p for p in g.points if p.n is not None and p.n['k'] == 'call' and p.n.get('virt') and strip_targs(p.n.get('c', '')).endswith('Exporter::Export')]
+    if not ex:
+        raise AnalysisBroken('%s::%s: call of the exporter not found' % (cls, method))
+    ok = g.exit.id not in g.reachable_from(g.entry, avoid=ex)
+    ck.verdict(ok, rule, f, 'every-record-exported', ex[0].n, 'every path through %s calls the exporter\'s Export' % method if ok else
+               '%s can return without handing the record to the exporter (try-lock / early return): a record emitted while another thread is exporting is dropped' % method,
+               path=None if ok else g.describe_path(g.path(g.entry, g.exit, avoid=ex) or []))
+
+
+def rule_r1_exposure(ck, prog, rule='C13.R1'):
+    """While the SDK log record keeps non-owning attribute values (finding D9), the API setters must at least hand it views into the
+    caller's storage: iterating a caller container by value stores views into a per-iteration copy that dies before the record is
+    even emitted."""
+    rec = prog.record('sdk::logs::ReadWriteLogRecord')
+    borrowing = [fd for fd in rec['fields'] if fd['name'] == 'attributes_map_' and c04._borrowing(prog, fd['t'])]
+    cnt = 0
+    for f in sorted(prog.funcs.values(), key=lambda x: x.key):
+        if 'LogRecordSetterTrait<' not in f.qn or f.name != 'Set':
+            continue
+        for lp in [n for n in f.nodes if n['k'] == 'forrange']:
+            calls = [f.nodes[i] for i in f.subtree(lp['body']) if f.nodes[i]['k'] == 'call' and f.nodes[i].get('virt') and
+                     strip_targs(f.nodes[i].get('c', '')).endswith('LogRecord::SetAttribute')]
+            if not calls:
+                continue
+            decl = None
+            for n in f.nodes:
+                if n['k'] == 'declstmt':
+                    for d in n['decls']:
+                        if d['id'] == lp['var']:
+                            decl = d
+            if decl is None:
+                continue
+            cnt += 1
+            byval = not decl['t'].rstrip().endswith('&')
+            site = 'container-attributes-viewed-in-caller-storage'
+            if byval and borrowing:
+                ck.violation(rule, f, site, lp,
+                             'the attribute container is iterated by value (%s %s) and views of the copy are handed to SetAttribute; ReadWriteLogRecord keeps the non-owning value, so the exported attribute points into a destroyed per-iteration copy' % (decl['t'][:50], decl['name']))
+            else:
+                ck.holds(rule, f, site, lp, 'loop variable is a reference into the caller\'s container' if not byval else 'copy is harmless: the record owns its values')
+    if not cnt:
+        raise AnalysisBroken('no LogRecordSetterTrait<container>::Set instantiation with an attribute loop in the driver unit')
 
 
 def rule_r2_api_canary(ck, prog):
